@@ -1,0 +1,20 @@
+//go:build verif
+
+// Exports for the verification harness (/verif). Compiled only with -tags verif.
+package proxy
+
+import "github.com/datastax/go-cassandra-native-protocol/primitive"
+
+// VerifParseProtocolVersion exposes parseProtocolVersion.
+func VerifParseProtocolVersion(s string) (primitive.ProtocolVersion, bool) {
+	return parseProtocolVersion(s)
+}
+
+// VerifParseConsistency exposes clWrapper.UnmarshalText.
+func VerifParseConsistency(s string) (primitive.ConsistencyLevel, bool) {
+	var c clWrapper
+	if err := c.UnmarshalText([]byte(s)); err != nil {
+		return 0, false
+	}
+	return c.ConsistencyLevel, true
+}
